@@ -23,3 +23,9 @@ fn k_try_boolean() {
     core::mem::forget(r2);
     core::mem::forget(r3);
 }
+
+#[cfg(test)]
+mod playback {
+    use super::*;
+    include!("/verif/.cache/playback/convert.rs");
+}
